@@ -15,8 +15,9 @@ Hypothesis R_refl : forall C, R C C.
 Hypothesis R_trans : forall A B C, R A B -> R B C -> R A C.
 Hypothesis R_frame2 : forall C C', same_core C C' -> c_cfg C' = c_cfg C -> c_clients C' = c_clients C -> R C C'.
 Hypothesis R_apply : forall C i e, R C (fst (apply_bc C i e)).
-Hypothesis R_reqs_app : forall C i q, R C (upd_bc C i (fun b => set_reqs (b_reqs b ++ [q]) b)).
-Hypothesis R_creq : forall C i h f, (forall q, q_owner (f q) = q_owner q) -> R C (upd_creq C i h f).
+Hypothesis R_reqs_app : forall C i q, q_to q = false -> R C (upd_bc C i (fun b => set_reqs (b_reqs b ++ [q]) b)).
+Hypothesis R_creq : forall C i h f,
+  (forall q, q_owner (f q) = q_owner q /\ q_timer (f q) = None /\ (q_to q = true -> q_to (f q) = true)) -> R C (upd_creq C i h f).
 Hypothesis R_clients : forall C cl x, c_clients C = Some cl -> R C (with_clients C x).
 Hypothesis R_newbc : forall C cl node a, c_clients C = Some cl -> assoc node cl = None ->
   R C (with_clients (with_bcs C (c_bcs C ++ [mkBc node (BrokerClient.with_addr BrokerClient.init a) [] None]))
@@ -43,7 +44,7 @@ Proof.
   unfold new_timer.
   assert (R C2 (with_timers C2 (c_timers C2 ++ [TReq i (length (BrokerClient.t_dlog (BrokerClient.s_t (b_st b))))]))) as H3.
   { apply R_frame; [split; [reflexivity | eexists; reflexivity] | repeat split]. }
-  destruct (first_def mo); cbn [fst]; (eapply R_trans; [exact H1|]; eapply R_trans; [exact H2|]; eapply R_trans; [exact H3|]; apply R_reqs_app).
+  destruct (first_def mo); cbn [fst]; (eapply R_trans; [exact H1|]; eapply R_trans; [exact H2|]; eapply R_trans; [exact H3|]; apply R_reqs_app; reflexivity).
 Qed.
 
 Lemma g_get_client C cl n C1 i : c_clients C = Some cl -> get_client C cl n = Some (C1, i) -> R C C1.
@@ -88,7 +89,7 @@ Proof.
   set (X := match q_timer q with
             | Some t => (upd_creq C i h (fun q0 => mkCreq (q_owner q0) None (q_to q0)), [OCancelTimer t])
             | None => (C, []) end).
-  assert (R C (fst X)) as H1 by (unfold X; destruct (q_timer q); cbn [fst]; [apply R_creq; reflexivity | apply R_refl]).
+  assert (R C (fst X)) as H1 by (unfold X; destruct (q_timer q); cbn [fst]; [apply R_creq; intro; repeat split; auto | apply R_refl]).
   destruct X as [C1 o1]. cbn [fst] in H1.
   destruct (q_owner q) as [d|p]; [exact H1|].
   destruct (nth_error (c_ops C1) p) as [[k al rid ph]|]; [|exact H1].
@@ -243,7 +244,7 @@ Proof.
     + unfold creq_at. destruct (nth_error (c_bcs C) i) as [b|]; [|apply R_refl].
       destruct (nth_error (b_reqs b) h) as [[ow [t'|] to]|]; try apply R_refl.
       destruct (Nat.eqb t t'); [|apply R_refl].
-      set (C1 := upd_creq C i h _). assert (R C C1) as H1 by (apply R_creq; reflexivity).
+      set (C1 := upd_creq C i h _). assert (R C C1) as H1 by (apply R_creq; intro; repeat split; auto).
       pose proof (g_ev_bc C1 i (BrokerClient.ECancel h)) as H2. destruct (ev_bc C1 i (BrokerClient.ECancel h)) as [C2 o2]. cbn [fst] in H2.
       destruct (g_dot (c_cfg C2)); cbn [fst]; [|eapply R_trans; eauto].
       pose proof (g_ev_bc C2 i BrokerClient.EDisconnect) as H3. destruct (ev_bc C2 i BrokerClient.EDisconnect). cbn [fst] in *.
@@ -290,7 +291,7 @@ Proof.
   - intros A B C0 H1 H2 H. auto.
   - intros C0 C' _ _ E H. congruence.
   - intros C0 i e0 H. pose proof (apply_bc_rest C0 i e0) as (_ & X & _). congruence.
-  - intros C0 i q H. exact H.
+  - intros C0 i q _ H. exact H.
   - intros C0 i h f _ H. exact H.
   - intros C0 cl x E H. congruence.
   - intros C0 cl node a E _ H. congruence.
@@ -362,9 +363,9 @@ Proof.
     * rewrite nth_upd_other by exact N. exists b0. split; [exact Hb0 | apply bc_le_refl].
 Qed.
 
-Lemma Rmono_reqs_app C0 i q : Rmono C0 (upd_bc C0 i (fun b => set_reqs (b_reqs b ++ [q]) b)).
+Lemma Rmono_reqs_app C0 i q : q_to q = false -> Rmono C0 (upd_bc C0 i (fun b => set_reqs (b_reqs b ++ [q]) b)).
 Proof.
-  intros A. split.
+  intros _ A. split.
   + intros j b' Hb'. cbn [upd_bc with_bcs c_bcs] in Hb'. apply nth_upd_inv in Hb'.
     destruct Hb' as [[<- (x & Hx & ->)]|[N Hb']]; [exact (A _ _ Hx) | exact (A j b' Hb')].
   + intros j b0 Hb0. cbn [upd_bc with_bcs c_bcs]. destruct (Nat.eq_dec i j) as [<-|N].
@@ -374,7 +375,8 @@ Proof.
     * rewrite nth_upd_other by exact N. exists b0. split; [exact Hb0 | apply bc_le_refl].
 Qed.
 
-Lemma Rmono_creq C0 i h f : (forall q, q_owner (f q) = q_owner q) -> Rmono C0 (upd_creq C0 i h f).
+Lemma Rmono_creq C0 i h f :
+  (forall q, q_owner (f q) = q_owner q /\ q_timer (f q) = None /\ (q_to q = true -> q_to (f q) = true)) -> Rmono C0 (upd_creq C0 i h f).
 Proof.
   intros Fo A. unfold upd_creq. split.
   + intros j b' Hb'. cbn [upd_bc with_bcs c_bcs] in Hb'. apply nth_upd_inv in Hb'.
@@ -383,7 +385,7 @@ Proof.
     * rewrite (nth_upd_same _ _ _ _ Hb0). eexists. split; [reflexivity|]. unfold bc_le. cbn [set_reqs b_st b_node b_reqs].
       split; [reflexivity|]. split; [auto|]. split; [auto|]. split; [exists []; rewrite app_nil_r; reflexivity|].
       intros h0 q0 Hq. destruct (Nat.eq_dec h h0) as [<-|Nh].
-      -- exists (f q0). split; [apply nth_upd_same; exact Hq | apply Fo].
+      -- exists (f q0). split; [apply nth_upd_same; exact Hq | apply (proj1 (Fo q0))].
       -- exists q0. split; [rewrite nth_upd_other by exact Nh; exact Hq | reflexivity].
     * rewrite nth_upd_other by exact N. exists b0. split; [exact Hb0 | apply bc_le_refl].
 Qed.
